@@ -1,13 +1,108 @@
 # Property table used by bin/check and bin/mkmanifest.py: which Props file holds the theorems, which
 # harness families tie the model to the code (family, quick count, thorough count), and the claim text.
+
+COMMON_NOTE = (
+    "Trusted: Coq 8.16.1 kernel (vm_compute used for witnesses and for evaluating the model; no native_compute); "
+    "no axioms (Print Assumptions of every theorem: Closed under the global context, re-checked every run). "
+    "The theorems are about the hand-written Gallina model of the four contracts and of the chain dispatcher "
+    "(coq/Model/*.v); its agreement with the code compiled from /repo's working tree is checked on every run by "
+    "differential execution of generated scripts (full state snapshot after every operation, query answers, injected "
+    "faults) — sampled, not proved. Platform semantics = cw-multi-test 2.4.0 + mantra-common-testing StargateMock; "
+    "cosmwasm-std / cw-ownable / mantra-dex-std arithmetic and helpers modelled from their sources.")
+
+TECH = ("machine-checked proof in Rocq (Coq 8.16.1) over a Gallina model of the contracts; model tied to /repo by a "
+        "differential correspondence check (model evaluated by vm_compute vs. real contracts on cw-multi-test)")
+
+def P(props, families, text, note=COMMON_NOTE, **kw):
+    d = {"props": props, "families": families, "level_text": text, "level_note": note, "technique": TECH,
+         "assumptions": ["cw-multi-test 2.4.0 / StargateMock as chain semantics", "library arithmetic modelled from source",
+                         "message payloads range over their Rust types (Uint128, Decimal, u64, u32, u8)"]}
+    d.update(kw)
+    return d
+
 PROPS = {
-    "C18": {
-        "props": "Props/C18.v",
-        "families": [("epoch", 320, 6000)],
-        "rule": "script on the real epoch-manager; non-trivial = accepted instantiation + answered CurrentEpoch; distinct by case text",
-        "assumptions": ["cw-multi-test 2.4.0 as chain semantics", "cosmwasm-std 2.2.2 Timestamp/Uint64 arithmetic modelled from source"],
-        "level_text": "Full proof: every clause of C18 (failure before genesis, definedness from genesis on, id = floor((now-genesis)/duration), monotonicity, +1 per duration, start(id) = genesis + id*duration without wrap-around, now in [start(cur), start(cur+1)), clean failure exactly on u64/Timestamp overflow, validation of duration/genesis at instantiate and on every update in every reachable state) is a kernel-checked theorem over the Gallina model of the epoch manager, for all u64 inputs. The model is tied to the code on every run by executing generated scripts (boundary-aimed times, u64 extremes, config updates, ownership changes) on the real contract and on the model and comparing every answer and the full state; the decidable form of the property is also evaluated on the implementation's answers.",
-        "level_note": "Trusted: Coq kernel + vm_compute; the hand-written model (coq/Model/Epoch.v, Ownable.v) whose agreement with the code is sampled, not proved; cw-multi-test as chain; cosmwasm-std Timestamp/Uint64 semantics with overflow checks on (as in the release profile). No axioms (Print Assumptions: closed).",
-    },
+    "C03": P("Props/C03.v", [("pool-scn", 48, 600), ("chain-pool", 32, 400)],
+        "Constant product: full proof. For every executed swap (perform_swap is the single code path of direct swaps, every router "
+        "hop and the internal swap of single-asset deposits), for all reserves, offers and fee settings incl. zero, x*y computed "
+        "from the reported reserves does not decrease, for every pool of the state; lifted to routes of any length (pools may "
+        "repeat) and to arbitrary swap sequences; corollary: a pool that did not gain X did not lose Y (no profitable round "
+        "trip on a pool). Stableswap: the literal claim is false of the unchanged code (output rounded in the trader's "
+        "favour, known finding F-ss-round); for stableswap pools the check relies on the correspondence with the pinned model "
+        "(reference-relative), not on a theorem — this part is partial."),
+    "C04": P("Props/C04.v", [("pool-scn", 48, 600), ("chain-pool", 32, 400)],
+        "Full proof at handler level for both pool types: every swap computation has a gross output such that swap/protocol/burn "
+        "fees are floor(gross*share), extra fees are floored one by one, return = gross - all fees; perform_swap adds the whole "
+        "offer to the offer reserve and removes exactly return + protocol + burn from the ask reserve, touching nothing else; "
+        "the emitted messages are exactly: return to the chosen receiver, burn, protocol fee to the collector; in a route hop "
+        "i+1 consumes exactly hop i's return, only the final amount is sent, fee messages are the hops' concatenation. "
+        "Balances follow from the message lists by the chain model (bank module), validated by the correspondence."),
+    "C08": P("Props/C08.v", [("farm-scn", 40, 500), ("pool-scn", 24, 300), ("auth-scn", 16, 200)],
+        "Full proof: roles for close/withdraw/expand/create-for-other; the pool manager, on behalf of a depositor, only ever creates "
+        "a position for / tops up a position of that depositor; a normal withdrawal of a closed position succeeds IF AND ONLY IF "
+        "sender = owner, no funds, unlock instant reached (boundary included), pays exactly the recorded amount and deletes the "
+        "position; close / partial close effects (old' + new = old, unlock = close time + duration); create/expand add exactly "
+        "the attached LP; frame theorem: no farm-manager message from anyone else changes a position; generated identifiers "
+        "never collide in any reachable world (invariant over all histories)."),
+    "C09": P("Props/C09.v", [("farm-scn", 64, 800)],
+        "Full proof: closed form of the penalty (min(base x remaining/duration x weight/amount, 90%), each product floored at 18 "
+        "digits), never above the cap, non-increasing in time, zero once unlocked; complete accounting of both withdrawal paths: "
+        "penalty < amount and <= 90% of it, owner gets amount - penalty, n active-farm owners get per each and the collector the "
+        "rest with n*per + collector <= penalty (all to the collector without active farm owners), position deleted."),
+    "C10": P("Props/C10.v", [("farm-scn", 64, 800)],
+        "Weight curve: full proof (closed form; >= amount; <= 16x amount via monotonicity + evaluation at one year; monotone in "
+        "amount and duration; every change written at epoch current+1 only). The clause 'total >= sum of users' weights' is NOT "
+        "proved: it is false of the unchanged code in the saturating-subtraction class (known finding F-sat); that clause is "
+        "covered by the correspondence only — partial."),
+    "C11": P("Props/C11.v", [("farm-scn", 40, 500), ("manyfarms-scn", 24, 300)],
+        "Proof of the lifecycle effects: creation (all checks, budget = full reward, rate = floor(reward/(end-start)), epochs within "
+        "buffer, fresh identifier, sweep of expired farms, live farms below the limit at creation), exact funds and fee routing "
+        "(fee to collector, overpayment refunded) outside the zero-fee/other-denom class (known finding F-zero-fee); expansion "
+        "(owner only, before end/expiry, attached = declared, multiple of rate, end += amount/rate); close (farm owner or contract "
+        "owner, refund of exactly amount - claimed to the farm's owner only). The global limit invariant (#unexpired <= max) is "
+        "proved only at each creation, not as an invariant over histories, and fails for max > 100 (F-clamp) — partial."),
+    "C12": P("Props/C12.v", [("pool-scn", 80, 1000)],
+        "Forward quotes: full proof. Simulation equals the computation an executed Swap uses (same return and fee amounts, hence same "
+        "messages); SimulateSwapOperations equals the final amount of ExecuteSwapOperations on routes visiting each pool at most "
+        "once (pools may share denoms), any length. Reverse quotes on constant product: the literal 'quote+1 suffices' is false of "
+        "the unchanged code for large amounts (18-digit truncation of 1/(1-fees), known finding F-rev18); covered by the "
+        "correspondence (ReverseSimulation answers compared on every run) — that clause is partial."),
+    "C13": P("Props/C13.v", [("pool-scn", 48, 600), ("chain-pool", 32, 400)],
+        "Full proof for the documented predicates: tolerance = min(max_slippage or 1%, 50%); accept-iff characterisations without and "
+        "with belief price; monotone in the tolerance; applied to every executed swap with its own computation; minimum_receive; "
+        "constant-product deposit tolerance accept-iff, monotone, exact proportion always accepted, tolerance > 1 refused; a "
+        "rejected operation changes nothing (chain model). The two stableswap defects of the unchanged tree (spread in the wrong "
+        "precision, deposit tolerance rejecting everything: F-ss-spread, F-ss-tol) are outside the theorems — known findings."),
+    "C15": P("Props/C15.v", [("auth-scn", 64, 800), ("farm-scn", 16, 200), ("epoch", 64, 800)],
+        "Full proof at transaction level on the chain model, from any world and any sender: config changes (feature toggles "
+        "included), ownership proposals and renouncements on all four contracts are accepted only from the current owner and only "
+        "without funds; ownership changes only by accept-by-pending (before expiry) or renounce-by-owner; rejected => no state "
+        "change; farm expansion / closing / position roles; pool manager's owner record untouched by any other message."),
+    "C16": P("Props/C16.v", [("pool-scn", 40, 500), ("chain-pool", 40, 500)],
+        "Full proof: everything a successful CreatePool has checked (2 assets CP / 2-4 distinct assets + amp > 0 stableswap, "
+        "decimals length, each fee < 100%, total <= 20%, identifier, fees paid exactly with no extra funds) and the only messages "
+        "it emits; the new pool record; over ALL histories (induction over the chain interpreter, faults included) no pool is "
+        "removed and identifier / denoms / decimals / type / fees / LP denom never change; LP denom is an injective function of "
+        "the identifier in every reachable world, so identifiers and LP denoms are unique. (validate_fees_are_paid / "
+        "validate_no_additional_funds are kept as the model's own definitions in the statement.)"),
+    "C17": P("Props/C17.v", [("pool-scn", 56, 700), ("chain-pool", 24, 300)],
+        "Proof at transaction level on the chain model: with swaps disabled a direct swap, ANY route containing the pool and a "
+        "single-asset deposit (through its internal swap sub-message) are rejected; deposits disabled blocks every deposit shape; "
+        "withdrawals disabled blocks withdrawals; rejected => no effect; a toggle changes only the named flags of the named pool; "
+        "pricing ignores the status; new pools start enabled. The relational frame clause ('all other operations behave exactly as "
+        "before') is proved per ingredient (handlers test only their own flag, pricing ignores status), not as one relational "
+        "theorem — that clause is partial."),
+    "C18": P("Props/C18.v", [("epoch", 320, 6000)],
+        "Full proof: every clause of C18 (failure before genesis, definedness from genesis on, id = floor((now-genesis)/duration), "
+        "monotonicity, +1 per duration, start(id) = genesis + id*duration without wrap-around, now in [start(cur), start(cur+1)), "
+        "clean failure exactly on u64/Timestamp overflow, validation of duration/genesis at instantiate and on every update in "
+        "every reachable state) is a kernel-checked theorem over the Gallina model of the epoch manager, for all u64 inputs.",
+        rule="script on the real epoch-manager; non-trivial = accepted instantiation + answered CurrentEpoch; distinct by case text"),
+    "C20": P("Props/C20.v", [("fault-scn", 64, 800), ("farm-scn", 16, 200)],
+        "Full proof on the chain model with fault injection at every internal bank / token-factory call: a rejected operation leaves "
+        "the world unchanged (only the one-shot fault marker is consumed); the pool manager never swallows an error (all "
+        "sub-messages fire-and-forget, the single reply is on-success); the farm manager tolerates only failures of close-farm "
+        "refunds and its reply handler does nothing; closing a farm is never blocked — under any pending fault an authorised close "
+        "succeeds, removes exactly that farm, and the bank either performed exactly the refund to the farm's owner or did not "
+        "move. The platform's atomicity itself is the chain model's (cw-multi-test), validated by the fault family."),
 }
 NOT_APPLICABLE = {}
